@@ -84,29 +84,35 @@ def prevSpace (rp : Bytes) : Bool := spaceEncsRev.any (fun e => e.isPrefixOf rp)
 
 def inRange (lo hi b : UInt8) : Bool := lo ≤ b && b ≤ hi
 
-/-- `utf8.FullRune` (tables `first` and `acceptRanges` of unicode/utf8). -/
+/-- (size, lo, hi) of a lead byte: the length of the sequence it starts and the accepted
+range of the second byte (tables `first` and `acceptRanges` of unicode/utf8); size 1 covers
+ASCII and invalid lead bytes -/
+def runeClass (b0 : UInt8) : Nat × UInt8 × UInt8 :=
+  if b0 < 0xc2 then (1, 0, 0)
+  else if b0 ≤ 0xdf then (2, 0x80, 0xbf)
+  else if b0 == 0xe0 then (3, 0xa0, 0xbf)
+  else if b0 == 0xed then (3, 0x80, 0x9f)
+  else if b0 ≤ 0xef then (3, 0x80, 0xbf)
+  else if b0 == 0xf0 then (4, 0x90, 0xbf)
+  else if b0 ≤ 0xf3 then (4, 0x80, 0xbf)
+  else if b0 == 0xf4 then (4, 0x80, 0x8f)
+  else (1, 0, 0)
+
+/-- `utf8.FullRune` after the lead byte: `t` are the bytes that follow it -/
+def fullRuneAux (size : Nat) (lo hi : UInt8) (t : Bytes) : Bool :=
+  if t.length + 1 ≥ size then true
+  else match t with
+    | [] => false
+    | b1 :: t' =>
+      if !(inRange lo hi b1) then true
+      else match t' with
+        | [] => false
+        | b2 :: _ => !(inRange 0x80 0xbf b2)
+
+/-- `utf8.FullRune` -/
 def fullRune : Bytes → Bool
   | [] => false
-  | b0 :: t =>
-    -- (size, lo, hi) of the lead byte; size 1 covers ASCII and invalid lead bytes
-    let cls : Nat × UInt8 × UInt8 :=
-      if b0 < 0xc2 then (1, 0, 0)
-      else if b0 ≤ 0xdf then (2, 0x80, 0xbf)
-      else if b0 == 0xe0 then (3, 0xa0, 0xbf)
-      else if b0 == 0xed then (3, 0x80, 0x9f)
-      else if b0 ≤ 0xef then (3, 0x80, 0xbf)
-      else if b0 == 0xf0 then (4, 0x90, 0xbf)
-      else if b0 ≤ 0xf3 then (4, 0x80, 0xbf)
-      else if b0 == 0xf4 then (4, 0x80, 0x8f)
-      else (1, 0, 0)
-    if t.length + 1 ≥ cls.1 then true
-    else match t with
-      | [] => false
-      | b1 :: t' =>
-        if !(inRange cls.2.1 cls.2.2 b1) then true
-        else match t' with
-          | [] => false
-          | b2 :: _ => !(inRange 0x80 0xbf b2)
+  | b0 :: t => fullRuneAux (runeClass b0).1 (runeClass b0).2.1 (runeClass b0).2.2 t
 
 /-! ## Decoder state -/
 
